@@ -13,7 +13,7 @@ No top-level side effects.  Typical use from a check:
 
 Vocabulary (token = name:field:field..., integers; d = empty destination slot, s/a/b = live source slots):
   Manifold constructors  cube:d:x:y:z:center  tet:d  sph:d:r:n  cyl:d:h:rl:rh:n:center  mesh:d:v(0..2)
-                         smooth:d:v(0..2)  ext:d:cs:h:ndiv:twist:scale  rev:d:cs:n:deg15
+                         smooth:d:v(0..2)  ext:d:cs:h:ndiv:twist:scale  rev:d:cs:n:deg15[:shift]
   CrossSection ctors     sq:d:x:y:center  circ:d:r:n  poly:d:v(0..3; hole, island, second outline, even-odd)
   lazy Manifold ops      bool:d:a:b:op:viaBoolean  batch:d:op:a:b..  compose:d:a:b..  tr:d:s:x:y:z  rot:d:s:x:y:z
                          sc:d:s:x:y:z  xf:d:s:k(0 identity,1 mirror,2 shear,3 rot90+move,4 neg scale,5 swap)
@@ -91,6 +91,11 @@ class _Pool:
         self.rng = rng
         self.kind = {}     # slot -> 'M' | 'C' | 'D'
         self.size = {}     # rough triangle estimate
+        self.taint = set() # slots whose value may carry the CalculateNormals(0) recording (hasNormals)
+        self.norefine = set()  # slots derived from Revolve (known crash: Refine*/Subdivide on revolved circles)
+        self.tang = set()      # slots whose value may carry halfedge tangents (SmoothOut/SmoothByNormals/Smooth)
+        self.tsafe = set()     # slots holding a Manifold::Smooth() constructor result itself
+        self.avoid_known = True
         self.ops = []
 
     def live(self):
@@ -115,9 +120,22 @@ class _Pool:
     def emit(self, tok):
         self.ops.append(tok)
 
-    def put(self, d, k, size=12):
+    def put(self, d, k, size=12, src=()):
         self.kind[d] = k
         self.size[d] = size
+        self.tsafe.discard(d)
+        for fl in (self.taint, self.norefine, self.tang):
+            fl.discard(d)
+            if any(x in fl for x in src):
+                fl.add(d)
+
+    def inherit(self, d, s, replace):
+        self.tsafe.discard(d)
+        for fl in (self.taint, self.norefine, self.tang):
+            if replace:
+                fl.discard(d)
+            if s in fl:
+                fl.add(d)
 
     def drop_one(self, keep=()):
         dead = [s for s, k in self.kind.items() if k == "D"]
@@ -177,14 +195,22 @@ def _ctor_man(p, d):
     elif k == "smooth":
         p.emit("smooth:%d:%d" % (d, _r(rng, 0, 2)))
         p.put(d, "M", 32)
+        p.tang.add(d)
+        p.tsafe.add(d)
     elif k == "ext":
         s = rng.choice(p.css())
         p.emit("ext:%d:%d:%d:%d:%d:%d" % (d, s, _r(rng, 1, 8), _r(rng, 0, 3), _r(rng, -3, 3), _r(rng, 0, 6)))
         p.put(d, "M", 120)
     else:
         s = rng.choice(p.css())
-        p.emit("rev:%d:%d:%d:%d" % (d, s, _r(rng, 3, 8), rng.choice([24, 24, 12, 6, 18])))
+        # 5th field 1 = harness shifts the profile into x > 0.  KNOWN DEFECT avoided by default (key
+        # revolve-axis-crossing-profile): Revolve of a profile crossing x = 0 (e.g. Circle(1.25, 8), 3 segments)
+        # yields a mesh on which Refine (subdivision.cpp:676) and SmoothOut (smoothing.cpp:1022) read wild memory.
+        shift = 1 if p.avoid_known else rng.randint(0, 1)
+        p.emit("rev:%d:%d:%d:%d:%d" % (d, s, _r(rng, 3, 8), rng.choice([24, 24, 12, 6, 18]), shift))
         p.put(d, "M", 200)
+        if not shift:
+            p.norefine.add(d)
 
 
 def _ctor_cs(p, d):
@@ -221,11 +247,23 @@ def _man_unary(p, k, d, s):
     elif k in ("warp", "warpb"):
         t = "%s:%d:%d:%d" % (k, d, s, rng.choice([0, 1, 1, 2, 2, 3, 5, 5, 4]))
     elif k == "setp":
-        t = "setp:%d:%d:%d:%d" % (d, s, rng.choice([0, 1, 3, 4, 4, 5, 6]), _r(rng, 0, 4))
+        # KNOWN DEFECT avoided by default (key getmeshgl-overflow-after-setproperties): SetProperties(numProp<3)
+        # on a value carrying the CalculateNormals(0) recording makes GetMeshGL read/write past the vertex block.
+        # second KNOWN DEFECT avoided by default (key calculatenormals-overflow-after-setproperties0):
+        # SetProperties(0) keeps stale propVert indices; a later CalculateNormals writes past properties_
+        # (smoothing.cpp:572/666), e.g. "mesh:0:2 setp:3:0:0:0 norm:14:3:3:9".
+        ns = [0, 1, 3, 4, 4, 5, 6]
+        if p.avoid_known:
+            ns = [3, 4, 4, 5, 6] if s in p.taint else [1, 3, 4, 4, 5, 6]
+        t = "setp:%d:%d:%d:%d" % (d, s, rng.choice(ns), _r(rng, 0, 4))
     elif k == "norm":
         t = "norm:%d:%d:%d:%d" % (d, s, rng.choice([0, 0, 0, 1, 3]), _r(rng, 0, 12))
     elif k == "curv":
         t = "curv:%d:%d:%d:%d" % (d, s, _r(rng, -1, 3), _r(rng, -1, 3))
+    elif k in ("ref", "rlen", "rtol") and p.avoid_known and s in p.norefine:
+        # KNOWN DEFECT avoided by default (key refine-crash-on-revolve): e.g. Revolve(Circle(1.25,8),3).Refine(2)
+        # reads a wild Barycentric in Impl::Subdivide (subdivision.cpp:676, ASan SEGV)
+        return False
     elif k == "ref":
         n = rng.choice([1, 2, 2, 3])
         if sz * n * n > 1500:
@@ -238,7 +276,11 @@ def _man_unary(p, k, d, s):
         t = "rlen:%d:%d:%d" % (d, s, _r(rng, 3, 12))
         nsz = sz * 6
     elif k == "rtol":
-        if sz > 200:
+        # KNOWN DEFECT avoided by default (key refinetotolerance-nan-divisions): tangents produced by SmoothOut on
+        # transformed/derived meshes can be non-finite; RefineToTolerance then casts NaN to int (UB, INT_MIN edge
+        # divisions, subdivision.cpp:543) and crashes.  With avoid_known rtol only sees Smooth() results or
+        # tangent-free values.
+        if sz > 200 or (p.avoid_known and s in p.tang and s not in p.tsafe):
             return False
         t = "rtol:%d:%d:%d" % (d, s, _r(rng, 2, 16))
         nsz = sz * 4
@@ -260,7 +302,11 @@ def _man_unary(p, k, d, s):
     else:
         return False
     p.emit(t)
-    p.put(d, "M", min(nsz, 3000))
+    p.put(d, "M", min(nsz, 3000), src=() if k == "hull" else (s,))
+    if k == "norm" and t.split(":")[3] == "0":
+        p.taint.add(d)
+    if k in ("smo", "smn"):
+        p.tang.add(d)
     return True
 
 
@@ -323,7 +369,7 @@ def _pattern(p, focus_ops, budget):
     how = rng.choice(["cp", "lazy", "lazy", "lazy", "copyop"])
     if how == "cp":
         p.emit("cp:%d:%d" % (b, a))
-        p.put(b, "M", p.size.get(a, 12))
+        p.put(b, "M", p.size.get(a, 12), src=(a,))
     elif how == "lazy":
         _man_unary(p, rng.choice(["tr", "tr", "rot", "sc", "xf"]), b, a)
     else:
@@ -349,14 +395,17 @@ def _pattern(p, focus_ops, budget):
     r = rng.random()
     if r < 0.3:
         p.emit("cadd:%d:%d:%d" % (b, a, rng.randint(0, 2)))     # b op= a : b gets a new incarnation, a must not move
+        p.inherit(b, a, False)
     p.emit("look:%d" % a)
     if b in p.kind and rng.random() < 0.7:
         p.emit("look:%d" % b)
 
 
-def gen_history(rng, hid, mode, nsteps, focus=None):
-    """Random history (list of op tokens) with <= nsteps steps and <= 12 live objects."""
+def gen_history(rng, hid, mode, nsteps, focus=None, avoid_known=True):
+    """Random history (list of op tokens) with <= nsteps steps and <= 12 live objects.  avoid_known=False also
+    generates the trigger of the known GetMeshGL overflow (SetProperties(numProp<3) after CalculateNormals(0))."""
     p = _Pool(rng)
+    p.avoid_known = avoid_known
     nsteps = min(nsteps, 60)
     focus_ops = None
     if focus is not None and focus in FOCUS_OPS:
@@ -394,7 +443,7 @@ def gen_history(rng, hid, mode, nsteps, focus=None):
                 a, b = rng.choice(small), rng.choice(small)
                 if a in p.kind and b in p.kind:
                     p.emit("bool:%d:%d:%d:%d:%d" % (f[0], a, b, rng.randint(0, 2), rng.randint(0, 1)))
-                    p.put(f[0], "M", p.size.get(a, 12) + p.size.get(b, 12))
+                    p.put(f[0], "M", p.size.get(a, 12) + p.size.get(b, 12), src=(a, b))
         elif k in ("batch", "compose", "hulln"):
             small = p.mans(600)
             f = p.room(1)
@@ -405,7 +454,7 @@ def gen_history(rng, hid, mode, nsteps, focus=None):
                     p.emit("batch:%d:%d:%s" % (f[0], rng.randint(0, 2), ":".join(map(str, xs))))
                 else:
                     p.emit("%s:%d:%s" % (k, f[0], ":".join(map(str, xs))))
-                p.put(f[0], "M", sum(p.size.get(x, 12) for x in xs))
+                p.put(f[0], "M", sum(p.size.get(x, 12) for x in xs), src=() if k == "hulln" else xs)
         elif k == "unary":
             f = p.room(1)
             ms = p.mans()
@@ -422,7 +471,7 @@ def gen_history(rng, hid, mode, nsteps, focus=None):
                 s = rng.choice(ms)
                 p.emit("dec:%d:%s" % (s, ":".join(map(str, f))))
                 for d in f:
-                    p.put(d, "M", p.size.get(s, 12))
+                    p.put(d, "M", p.size.get(s, 12), src=(s,))
         elif k in ("split", "splitp"):
             f = p.room(2)
             ms = p.mans(1200)
@@ -433,14 +482,14 @@ def gen_history(rng, hid, mode, nsteps, focus=None):
                 else:
                     p.emit("splitp:%d:%d:%d:%d:%d:%d:%d" % (f[0], f[1], a, _nz(rng, -2, 2), _r(rng, -2, 2), _r(rng, -2, 2), _r(rng, -2, 4)))
                 for d in f:
-                    p.put(d, "M", p.size.get(a, 12) + 24)
+                    p.put(d, "M", p.size.get(a, 12) + 24, src=(a, b) if k == "split" else (a,))
         elif k == "mink":
             f = p.room(1)
             ms = p.mans(40)
             if f and ms:
                 a, b = rng.choice(ms), rng.choice(ms)
                 p.emit("%s:%d:%d:%d" % (rng.choice(["mks", "mkd"]), f[0], a, b))
-                p.put(f[0], "M", 400)
+                p.put(f[0], "M", 400, src=(a, b))
         elif k in ("slice", "proj"):
             f = p.room(1)
             ms = p.mans()
@@ -484,7 +533,7 @@ def gen_history(rng, hid, mode, nsteps, focus=None):
             if f and lv:
                 s = rng.choice(lv)
                 p.emit("cp:%d:%d" % (f[0], s))
-                p.put(f[0], p.kind[s], p.size.get(s, 12))
+                p.put(f[0], p.kind[s], p.size.get(s, 12), src=(s,))
         elif k in ("cpa", "mva"):
             lv = p.live()
             if len(lv) >= 2:
@@ -494,6 +543,7 @@ def gen_history(rng, hid, mode, nsteps, focus=None):
                     s = rng.choice(same)
                     p.emit("%s:%d:%d" % (k, d, s))
                     p.size[d] = p.size.get(s, 12)
+                    p.inherit(d, s, True)
                     if k == "mva":
                         p.kind[s] = "D"
         elif k == "mv":
@@ -505,7 +555,7 @@ def gen_history(rng, hid, mode, nsteps, focus=None):
                 f = p.free(1)
                 if f:
                     p.emit("mv:%d:%d" % (f[0], s))
-                    p.put(f[0], kd, p.size.get(s, 12))
+                    p.put(f[0], kd, p.size.get(s, 12), src=(s,))
                 else:
                     p.kind[s] = kd
         elif k == "self":
@@ -521,6 +571,7 @@ def gen_history(rng, hid, mode, nsteps, focus=None):
                     b = rng.choice(same)
                     p.emit("cadd:%d:%d:%d" % (a, b, rng.randint(0, 2)))
                     p.size[a] = p.size.get(a, 12) + p.size.get(b, 12)
+                    p.inherit(a, b, False)
         elif k == "drop":
             if len(p.kind) > 3:
                 p.drop_one()
